@@ -27,12 +27,12 @@ Nil == [on |-> FALSE]
 Ptr(v) == [on |-> TRUE, v |-> v]
 
 \* The four pointers as the generator sees them on a schemas.Type
-PMin(s)  == IF Has(s, "minimum") THEN Ptr(AsNum(s.minimum)) ELSE Nil
-PMax(s)  == IF Has(s, "maximum") THEN Ptr(AsNum(s.maximum)) ELSE Nil
+PMin(s)  == IF Has(s, "minimum") THEN Ptr(s.minimum) ELSE Nil
+PMax(s)  == IF Has(s, "maximum") THEN Ptr(s.maximum) ELSE Nil
 \* exclusive*: *any holding bool or float64:  [on, k |-> "b"/"n", b / v]
 PEx(s, key) == IF ~Has(s, key) THEN [on |-> FALSE]
                ELSE IF s[key].k = "b" THEN [on |-> TRUE, k |-> "b", b |-> s[key].b]
-               ELSE [on |-> TRUE, k |-> "n", v |-> AsNum(s[key].h)]
+               ELSE [on |-> TRUE, k |-> "n", v |-> s[key].h]
 
 \* NormalizeBounds(minimum, maximum, exclusiveMinimum, exclusiveMaximum)
 \*   -> [min, max : pointer, minEx, maxEx : BOOLEAN]
@@ -59,18 +59,23 @@ Normalize(min, max, emin, emax, D) ==
 \*   lower: sign ">"  : exclusive ->  b >= x  rejects ; inclusive -> b > x rejects
 \* valueOf truncates the boundary to int64 for integer fields (exact here: integer schemas carry
 \* integral constants in every enumerated family).
-BoundaryRejects(p, ex, x, upper) ==
+\* valueOf: `int64(val)` for integer fields truncates a non-integral boundary toward zero -- deviation
+\* "IntBoundTruncated" (minimum 1.5 on an integer is checked as 1 > x, so 1 is accepted)
+TruncInt(v) == IF v.t # "num" THEN v
+               ELSE IF v.h >= 0 THEN JNum((v.h \div U) * U) ELSE JNum(-(((-v.h) \div U) * U))
+BoundaryRejects(p, ex, x, upper, isInt, D) ==
+  LET b == IF isInt /\ "IntBoundTruncated" \in D /\ p.on THEN TruncInt(p.v) ELSE p.v IN
   /\ p.on
-  /\ IF upper THEN (IF ex THEN NumLE(p.v, x) ELSE NumLT(p.v, x))
-              ELSE (IF ex THEN NumLE(x, p.v) ELSE NumLT(x, p.v))
+  /\ IF upper THEN (IF ex THEN NumLE(b, x) ELSE NumLT(b, x))
+              ELSE (IF ex THEN NumLE(x, b) ELSE NumLT(x, b))
 
 \* numericValidator.generate, evaluated on a non-nil value x.
 \* (multipleOf: `x % m != 0` for ints, `math.Abs(math.Mod(x, m)) > 1e-10` for floats: exact on halves)
-NumCheckRejects(min, max, emin, emax, mult, x, D) ==
+NumCheckRejects(min, max, emin, emax, mult, x, isInt, D) ==
   LET n == Normalize(min, max, emin, emax, D) IN
   \/ (mult.on /\ x.t = "num" /\ x.h % mult.v.h # 0)
-  \/ BoundaryRejects(n.max, n.maxEx, x, TRUE)
-  \/ BoundaryRejects(n.min, n.minEx, x, FALSE)
+  \/ BoundaryRejects(n.max, n.maxEx, x, TRUE, isInt, D)
+  \/ BoundaryRejects(n.min, n.minEx, x, FALSE, isInt, D)
 
 \* structFieldValidators: a numericValidator is attached iff one of the five pointers is non-nil
 HasNumValidator(min, max, emin, emax, mult) == min.on \/ max.on \/ emin.on \/ emax.on \/ mult.on
@@ -78,6 +83,7 @@ HasNumValidator(min, max, emin, emax, mult) == min.on \/ max.on \/ emin.on \/ em
 ImplNumAccepts(s, x, D) ==
   LET mult == IF Has(s, "multipleOf") THEN Ptr(JNum(s.multipleOf)) ELSE Nil IN
   ~(HasNumValidator(PMin(s), PMax(s), PEx(s, "exclusiveMinimum"), PEx(s, "exclusiveMaximum"), mult)
-    /\ NumCheckRejects(PMin(s), PMax(s), PEx(s, "exclusiveMinimum"), PEx(s, "exclusiveMaximum"), mult, x, D))
+    /\ NumCheckRejects(PMin(s), PMax(s), PEx(s, "exclusiveMinimum"), PEx(s, "exclusiveMaximum"), mult, x,
+                       Main(s) = "integer", D))
 
 =============================================================================
